@@ -208,7 +208,12 @@ def worker(inst):
         if v == "unknown":
             out.update(status="inconclusive", detail="solver unknown")
             return out
-        # replay: realise the leaf order from the model as real classes and ask the real, unpatched code
+        # replay: realise the leaf order from the model as real classes and ask the real, unpatched code.  Real
+        # classes realise exactly the PARTIAL orders, so prefer a counterexample whose leaf relation is antisymmetric
+        anti = [z3.Not(z3.And(S["R"][a][b], S["R"][b][a])) for a in range(NATOMS) for b in range(a + 1, NATOMS)]
+        v2, m2, _ = engine.check_valid(list(ax) + anti, g, 10000)
+        if v2 == "sat":
+            m = m2
         rel = [[z3.is_true(m.eval(S["R"][a][b], model_completion=True)) for b in range(NATOMS)] for a in range(NATOMS)]
         rep = replay(inst, rel)
         if rep is None:
@@ -244,8 +249,11 @@ for i in range(n):
 order = sorted(set(canon), key=lambda i: sum(rel[i][j] for j in range(n)))
 cls = {}
 for i in order:
-    bases = tuple(cls[canon[j]] for j in range(n) if canon[j] != i and canon[j] in cls and rel[i][j] and not rel[j][i])
-    bases = tuple(dict.fromkeys(bases))
+    ups = [canon[j] for j in range(n) if canon[j] != i and canon[j] in cls and rel[i][j] and not rel[j][i]]
+    ups = list(dict.fromkeys(ups))
+    # direct bases only (transitive reduction), otherwise the MRO is inconsistent
+    direct = [u for u in ups if not any(v != u and rel[v][u] and not rel[u][v] for v in ups)]
+    bases = tuple(cls[u] for u in direct)
     try:
         cls[i] = type("A%d" % i, bases or (object,), {})
     except TypeError:
@@ -403,6 +411,33 @@ def history_worker(inst, out):
                     out.update(status="violation", kind="dispatch", detail="patterns %s registered in order %s: a %s argument runs rule %r, expected one of %s" % (
                         list(names), list(order), kind, got[kind], sorted(want(kind))), replay=dict(order=list(order)))
                     return out
+    out["discharged"] += 1
+    # ops created AFTER import, from bases at every depth of the op class hierarchy: the patterns registered on
+    # ancestors (Funsor arguments build lazy terms) must apply to them as to the built-in ops
+    out["obligations"] += 1
+    from funsor.terms import Binary
+    x, y = Variable("x", funsor.Real), Variable("y", funsor.Real)
+    for base in ("UnaryOp", "TransformOp", "BinaryOp", "AssociativeOp"):
+        OB = getattr(ops, base, None)
+        if OB is None:
+            continue
+        try:
+            if base in ("UnaryOp", "TransformOp"):
+                late = OB.make(lambda a: a + 1.0, name="late_%s_%d" % (base[:3].lower(), len(base)))
+                t = late(x)
+                okk = isinstance(t, Funsor) and set(t.inputs) == {"x"} and late in t._ast_values and late(2.0) == 3.0
+            else:
+                late = OB.make(lambda a, b: a - 2.0 * b, name="late_%s_%d" % (base[:3].lower(), len(base)))
+                t = late(x, y)
+                t2 = late(x, 1.0)
+                okk = (isinstance(t, Funsor) and set(t.inputs) == {"x", "y"} and late in t._ast_values and
+                       isinstance(t2, Funsor) and set(t2.inputs) == {"x"} and late in t2._ast_values and late(5.0, 1.0) == 3.0)
+        except TypeError as e:
+            okk = False
+            t = "TypeError: %s" % e
+        if not okk:
+            out.update(status="violation", kind="dispatch", detail="an op made from %s after import does not dispatch like the built-in ops: applied to Variables it gives %r" % (base, t))
+            return out
     out["discharged"] += 1
     reg = KeyedRegistry(default=lambda *a: None)
     reg.register(A, A)(lambda x: "AA")
